@@ -211,8 +211,9 @@ class Resource(Entity):
     def acquire(self, amount: int | float = 1) -> SimFuture:
         """Acquire capacity, returning a SimFuture that resolves with a Grant.
 
-        If sufficient capacity is available, the returned future is
-        pre-resolved (yielding it resumes immediately). Otherwise the
+        If sufficient capacity is available and no earlier request is still
+        queued, the returned future is pre-resolved (yielding it resumes
+        immediately). Otherwise the
         caller is queued and the future resolves when capacity becomes
         available via FIFO ordering.
 
@@ -235,8 +236,8 @@ class Resource(Entity):
 
         future = SimFuture()
 
-        if self._available >= amount:
-            # Immediate grant
+        if not self._waiters and self._available >= amount:
+            # Immediate grant (never ahead of already-queued waiters: strict FIFO)
             self._available -= amount
             self._acquisitions += 1
             self._update_peak_utilization()
